@@ -9,6 +9,9 @@ import check
 pid = sys.argv[1]
 unit = sys.argv[2] if len(sys.argv) > 2 else ""
 obl = sys.argv[3] if len(sys.argv) > 3 else ""
+if os.environ.get("VERIF_REPLAY_OVERLAY"):  # {repo file: replacement}, as check --overlay
+    import json
+    check.EXTRA_OVERLAY.update(json.load(open(os.environ["VERIF_REPLAY_OVERLAY"])))
 mod = check.load_replay_module(pid)
 plan = mod.build(unit, obl, {})
 out = tempfile.mkdtemp(prefix="replayonly_", dir=os.path.join(check.VERIF, "out"))
